@@ -26,7 +26,7 @@ SPEC = dict(
         "hand-written model lean/Qx/Model/C04Negotiation.lean (shared with C04) of QXmppOutgoingClient / XmppSocket / StreamAckManager / "
         "C2sStreamManager / CsiManager / the slots of QXmppClient::connected, tied to the code by the correspondence run",
         "Qt socket behaviour taken as observed: disconnectFromHost() delivers disconnected synchronously; a peer close reports one socket "
-        "error (two on a TLS link); connectToHost from inside QSslSocket's disconnected() handler after TLS never completes (modelled as 'hung')",
+        "error (two on a TLS link); the see-other-host reconnect is a queued call and always completes on loopback",
         "the outstanding-request table is abstracted to a counter (the table itself: C07)",
     ],
     assumptions=[
@@ -34,24 +34,24 @@ SPEC = dict(
         "DNS/SRV address lists and the TryNext branch of _q_socketDisconnected are not exercised (explicit host/port) and not modelled",
         "bindAvail/smAvail/csiAvail are not reset per connection by the code; they are overwritten by the next features element before use "
         "(read by inspection and confirmed by the correspondence runs, not a theorem)",
-        "'next attempt succeeds' is proved for three conforming flows (SASL+bind, STARTTLS+SASL+bind, SASL2+bind2+SM) after ANY history; the "
-        "resumption flows and SCRAM are covered by the correspondence/oracle runs only",
-        "'connected at most once per connection' is proved for every history under the single conformance hypothesis 'the server sends no "
-        "stream features into an established session' (without it the property is false: features sent twice open the session twice, the "
-        "Q_ASSERT guarding this is compiled out in release builds); 'connected only when done' needs no hypothesis",
-        "'isConnected() implies authenticated' is only shown to FAIL (redirect inside a session); the positive statement under 'no "
-        "see-other-host during a session and the server requires authentication' is not proved (checked by the oracle on conforming scripts)",
+        "'next attempt succeeds' is proved for four conforming flows (SASL+bind, STARTTLS+SASL+bind, SASL2+bind2+SM, legacy XEP-0078) after ANY "
+        "history; the resumption flows and SCRAM are covered by the correspondence/oracle runs only",
+        "'connected at most once per connection' needs one conformance hypothesis: the server sends neither a stream header nor features into an "
+        "established session (without it the property is false: openSession is not guarded, its Q_ASSERT is compiled out in release builds)",
+        "'isConnected() means a session was established on this connection' holds for every history; that the session is also AUTHENTICATED "
+        "depends on the server demanding authentication and is checked by the oracle on conforming scripts only",
     ],
     level_text="Theorems quantified over every history (all event scripts of any length): the cut leaves disconnected/no session/not "
-               "authenticated with exactly one disconnected signal; outstanding requests are finished unless resumable; every negotiation "
-               "field except bind2Bound is back to its initial value after cut+reconnect; three conforming flows reach connected after any "
-               "history; for every history and every event connected is reported at most once per step and only by a step that leaves the "
-               "listener idle, the session flag set and the socket connected; for every history of a server that sends no features into a "
-               "session no two connected are reported without a disconnected (socket loss) in between; every cut point of the SASL+bind "
-               "flow reports nothing until the last element. Five machine-checked defect theorems with witnesses replayed on the real client.",
+               "authenticated with exactly one disconnected signal; outstanding requests are finished unless resumable; EVERY negotiation "
+               "field (bind2 result included) is back to its initial value after cut+reconnect; four conforming flows reach connected after "
+               "any history; connected is reported at most once per step and only by a step that leaves the listener idle, the session flag "
+               "set and the socket connected; isConnected() implies that the last session signal was connected and the session flag is never "
+               "set without a connected socket; for every history of a server that does not restart negotiation inside a session no two "
+               "connected are reported without a disconnected (socket loss) in between; every cut point of the SASL+bind flow reports "
+               "nothing until the last element.",
     level_note="Proved about the hand-written model; model-to-code tie is differential (every policy x every cut point, pairs and triples "
-               "of attempts). The property does NOT hold in four places (recorded findings with fix diffs): legacy login never completes, "
-               "bind2Bound leaks across attempts, see-other-host inside a session keeps the session flag, see-other-host over TLS hangs.",
+               "of attempts). The four former findings (legacy login, bind2Bound leak, see-other-host inside a session / over TLS) are fixed "
+               "in the tree (7771c2d, 7a677f2, e363fe9); their witnesses are replayed first.",
     design_ref="5.10",
     technique="Lean 4 proofs over all event histories + model/implementation correspondence against a scripted, cut-at-every-point server",
 )
